@@ -110,6 +110,7 @@ def run(chk):
                       rng.choice(["none", "none", "bitflip", "oversize", "error"]), rng.random() < 0.4,
                       rng.random() < 0.3))
     scens, metas = [], []
+    old_of = {}
     for (n, cs, prefix, cor, pre, dele) in specs:
         try:
             s, content, items, files, r = build_save(rng, n, cs, prefix, cor, pre, dele)
@@ -129,11 +130,16 @@ def run(chk):
         dest_comps = ((hexd + "." if prefix else "") + resolved).split("/")
         dest_comps = [c for c in dest_comps if c not in ("", ".")]
         if pre:
-            ops.append({"op": "put", "path": dest_comps, "content": "OLD CONTENT"})
+            # a previous file at the destination: unrelated, or of exactly the signed length with other bytes (a
+            # damaged earlier copy)
+            old = "OLD CONTENT" if len(scens) % 2 == 0 or not content else "#" * len(content)
+            ops.append({"op": "put", "path": dest_comps, "content": old})
         ops.append({"op": "save", "name": n, "prefix": prefix})
         s.cycle(r, files, targets_files=[{"name": tf_name, "items": items}], ops=ops, lenient_targets=True)
         scens.append(s)
         metas.append((n, cs, prefix, cor, pre, dele, content, dest_comps, resolved))
+        if pre:
+            old_of[id(s)] = old.encode()
     results = clientrun.run_scenarios(chk, scens)
     for s, (n, cs, prefix, cor, pre, dele, content, dest_comps, resolved), (impl, model, mcase) in zip(scens, metas, results):
         chk.seen(mcase, True)
@@ -168,7 +174,7 @@ def run(chk):
             if cor != "none":
                 chk.violation("save_target succeeded although the transfer was corrupted (%s)" % cor, full)
         else:
-            want = {dest: b"OLD CONTENT"} if pre else {}
+            want = {dest: old_of[id(s)]} if pre else {}
             if {k: v for k, v in contents.items() if not k.startswith("<OUTSIDE>")} != want:
                 chk.violation("a failed save_target(%r) created or modified files: %s" % (n, paths), full)
             joinurl = code[0] == 900 and len(code) > 1 and bytes(code[1][:7]) == b"JoinUrl"
